@@ -360,6 +360,7 @@ func revCanon(m map[string]interface{}) map[string]interface{} {
 func (w *world) runSync(key string) (outcome string, detail string) {
 	w.q.Reset()
 	w.q.Pending = []interface{}{key}
+	lastSyncError = ""
 	defer func() {
 		if r := recover(); r != nil {
 			outcome, detail = "panic", fmt.Sprint(r)
@@ -372,5 +373,5 @@ func (w *world) runSync(key string) (outcome string, detail string) {
 			outcome = "error"
 		}
 	}
-	return outcome, ""
+	return outcome, lastSyncError
 }
